@@ -1,6 +1,6 @@
 """C15 — accepted plans can always make progress."""
 import json
-from .. import common, framework, fndiff, cmdrun, gen, oracles
+from .. import common, framework, fndiff, cmdrun, gen, oracles, explore2
 from ..histories import run_history, replay_trace
 
 WEIGHTS = {"new_task": 24, "new_epic": 12, "set": 22, "sequence": 34, "plan": 4, "prune_yes": 2, "claim_oldest": 2}
@@ -101,11 +101,21 @@ def run(ctx):
             v_.epic_edges = allow
             return gen_fn(r_, v_, w_)
         run_history(ctx, r.fork(), 40, WEIGHTS, oracle, gen_fn=gf)
+    # two agents asking for the two directions of one edge at the same time: whichever comes second must be refused — a cycle check done on a
+    # snapshot read before the lock lets both through and the two tasks wait for each other for ever
+    def post(g):
+        cyc = oracles.find_cycle([(a, b) for a, b, k in oracles.waits_edges(g) if k == "own"])
+        return ("same-level dependency cycle", "the waits-for relation has the cycle %s: no task on it can ever become ready" % (cyc,)) if cyc else None
+    W2 = {"new_task": 60, "set": 20, "sequence": 20}
+    for i in range(3 if ctx.quick else 40):
+        explore2.explore(ctx, "C15", r.fork(), kindsA=("seq_opposed",), kindsB=("seq_opposed",), max_points=(6 if ctx.quick else 40), state_cmds=6, post_oracle=post, weights=W2)
     ctx.cov["rule"] = ("two-level graphs (2–4 epics, tasks inside them, task edges crossing epics, epic→epic edges, epic moves), states driven to todo/done/canceled; "
                        "oracle: cycle search in the effective waits-for relation + premises ⇒ claim must not answer no_ready")
 
 
 def replay(ctx, doc):
+    if explore2.is_schedule_replay(doc):
+        return explore2.replay(ctx, doc)
     st = replay_trace(ctx, doc["replay"]["trace"])
     try:
         g = st.graph()["graph"]
